@@ -4,7 +4,14 @@ import string
 
 TPL = {"orig:P": "P0 {x:name}|{y}", "orig:C": "C0 {y:line}|{x}", "orig:N": "N0 {x}|{y:name}", "o1": "O1 {x:name} at {y:line}", "o2": "O2 {x}",
        "kw": "KW {x:name}!", "kwn": "KN {x:>{w}}|{y:line}|{x:<{w}}.",
-       "kwc": "KC {x:shout}|{y:name}"}
+       "kwc": "KC {x:shout}|{y:name}",
+       # attributes of a field value, among them the names the template machinery uses for itself
+       "kwa": "KA {pt.value}|{pt.key:name}|{pt.formatter}|{pt.other}|{x}"}
+
+
+class Point:
+    """a field value with attributes (an enum member has .value, a dict item view .key ...)"""
+    value, key, formatter, other = "pv", "pk", "pf", "po"
 TTPL = {"o1": "O1 {name:name} at {location.line:line}", "o2": "O2 {name}", "kw": "KW {name:name}!"}
 TITLE = {"orig:P": "Title P", "orig:C": "Title C", "orig:N": None, "o1": "Title one", "o2": "Title two"}
 
@@ -89,7 +96,7 @@ class World:
         from pedal.core.location import Location
         if c == "T":
             return {"location": Location(5), "name": "nm"}
-        return {"x": "vx", "y": 7, "w": 6}
+        return {"x": "vx", "y": 7, "w": 6, "pt": Point()}
 
     def expected_message(self, c, m, i):
         """Oracle for MessageDerivation: explicit message, else the template with every field substituted
@@ -136,6 +143,8 @@ class World:
                     kw["message_template"] = TPL["kwn"]
                 elif mk == "kwcustom":
                     kw["message_template"] = TPL["kwc"]
+                elif mk == "kwattr":
+                    kw["message_template"] = TPL["kwa"]
                 if a["delay"]:
                     kw["delay_condition"] = True
                 if a.get("par") == "str":
